@@ -68,7 +68,7 @@ def make_history(rng, max_steps=6, kinds=None, doc=None):
             e = specgen.Entry(rng, allow_open=rng.random() < 0.3)
             lines = [e.value_text() + ((" " + e.first) if e.first is not None else "")] + [t for _, t in e.more]
             if rng.random() < 0.06:
-                lines = [rng.choice(["foo", "1x", "25:00-26:00", " ", "  1h", "10:00 - 9:00"])]     # not an entry
+                lines = [rng.choice(["foo", "1x", "25:00-26:00", "x 1h", "  1h", "10:00 - 9:00"])]     # not an entry
             steps.append(Step(now, k, [ds, hl([l.replace("\r", "") for l in lines])]))
         elif k in ("start", "switch"):
             ds, _ = rand_datesel(rng, today, doc)
@@ -183,40 +183,44 @@ def allowed_line_change(old, new, kind):
     return False
 
 def minimal_edit(before, after, kind):
-    """None if `after` is `before` with only the edits the command is defined to make"""
+    """None if `after` is `before` with only the edits the command is defined to make:
+    every original line survives in order (possibly changed in an allowed way), added lines form few contiguous blocks.
+    Dynamic programme over alignments: cost = (number of inserted blocks, number of changed lines)."""
     a, b = line_pairs(before), line_pairs(after)
     if all(all(c in b" \t" for c in t) for t, _ in a):
         return None                                    # a file of blank lines may be replaced wholesale
-    sm = difflib.SequenceMatcher(None, a, b, autojunk=False)
-    inserted_blocks = 0
-    changed_lines = 0
-    for tag, i1, i2, j1, j2 in sm.get_opcodes():
-        if tag == "equal":
-            continue
-        if tag == "delete":
-            return "original lines %d..%d disappeared" % (i1 + 1, i2)
-        if tag == "insert":
-            inserted_blocks += 1
-            continue
-        # replace: the first i2-i1 new lines must be the old lines, changed in an allowed way; the rest is an insertion
-        if j2 - j1 < i2 - i1:
-            return "original lines %d..%d were replaced by fewer lines" % (i1 + 1, i2)
-        # old lines may be matched to new lines in order, skipping inserted ones
-        j = j1
-        for i in range(i1, i2):
-            while j < j2 and not allowed_line_change(a[i], b[j], kind):
-                j += 1
-            if j == j2:
-                return "original line %d %r was altered in a way %s is not defined to" % (i + 1, a[i][0][:60], kind)
-            if a[i] != b[j]: changed_lines += 1
-            j += 1
-        if (j2 - j1) > (i2 - i1):
-            inserted_blocks += 1
+    n, m = len(a), len(b)
+    if m < n:
+        return "the file lost lines (%d -> %d)" % (n, m)
+    INF = (10**9, 10**9)
+    # best[i][j][k]: a[:i] aligned into b[:j]; k = 1 if b[j-1] is an inserted line
+    best = [[[INF, INF] for _ in range(m + 1)] for _ in range(n + 1)]
+    best[0][0][0] = (0, 0)
+    for i in range(n + 1):
+        for j in range(m + 1):
+            for k in (0, 1):
+                cur = best[i][j][k]
+                if cur == INF: continue
+                if j < m:      # b[j] is an inserted line
+                    cand = (cur[0] + (0 if k == 1 else 1), cur[1])
+                    if cand < best[i][j + 1][1]: best[i][j + 1][1] = cand
+                if i < n and j < m:
+                    if a[i] == b[j]:
+                        if cur < best[i + 1][j + 1][0]: best[i + 1][j + 1][0] = cur
+                    elif allowed_line_change(a[i], b[j], kind):
+                        cand = (cur[0], cur[1] + 1)
+                        if cand < best[i + 1][j + 1][0]: best[i + 1][j + 1][0] = cand
+    res = min(best[n][m][0], best[n][m][1])
+    if res == INF:
+        # find the first original line that cannot be placed
+        return "an original line was removed or altered in a way %s is not defined to" % kind
+    blocks, changed = res
     limit_changed = {"track": 1, "start": 1, "create": 1, "stop": 3, "switch": 3, "pause": 2}[kind]
-    if changed_lines > limit_changed:
-        return "%d original lines changed" % changed_lines
-    if inserted_blocks > {"track": 1, "start": 1, "create": 1, "stop": 1, "switch": 2, "pause": 1}[kind] + 0:
-        return "added lines are not contiguous (%d separate blocks)" % inserted_blocks
+    limit_blocks = {"track": 1, "start": 1, "create": 1, "stop": 1, "switch": 2, "pause": 1}[kind]
+    if changed > limit_changed:
+        return "%d original lines changed" % changed
+    if blocks > limit_blocks:
+        return "added lines are not contiguous (%d separate blocks)" % blocks
     return None
 
 def oracle_c03(req, out):
@@ -516,3 +520,15 @@ def check_pause(prev, cur, step, st):
                 if name not in joined.lower():
                     return "tag %s of the open range was not carried over" % t
     return None
+
+
+def k15_track_leading_blank(req, out):
+    """known finding K15: `klog track` with a text that starts with a blank character reports success although the
+    text is not added as an entry (it becomes a continuation line of the previous entry, or a blank line)"""
+    cfg, file0, steps = parse_request(req)
+    for s in steps:
+        if s[5] == "track":
+            first = unhx(s[7].split(",")[0])
+            if first[:1] in (b" ", b"\t") or first == b"":
+                return True
+    return False
